@@ -851,6 +851,53 @@ fn ark_ord_contract() {
 }
 #[kani::proof]
 #[kani::unwind(7)]
+fn ark_misc_contract() {
+    // contracts assumed by the Verus unit `inv`: is_even, one(), ==, zero(), get_bit
+    use ark_ff::BigInteger;
+    let (a, b): ([u64; 4], [u64; 4]) = (kani::any(), kani::any());
+    let (x, y) = (ark_ff::BigInt::<4>::new(a), ark_ff::BigInt::<4>::new(b));
+    assert!(x.is_even() == (a[0] & 1 == 0));
+    let one = ark_ff::BigInt::<4>::one();
+    assert!(one.0[0] == 1 && one.0[1] == 0 && one.0[2] == 0 && one.0[3] == 0);
+    let zero = ark_ff::BigInt::<4>::zero();
+    assert!(zero.0[0] == 0 && zero.0[1] == 0 && zero.0[2] == 0 && zero.0[3] == 0);
+    let n: usize = kani::any();
+    kani::assume(n < 256);
+    assert!(x.get_bit(n) == ((a[n >> 6] >> (n & 63)) & 1 == 1));
+}
+#[kani::proof]
+#[kani::unwind(34)]
+fn ark_eq_contract() {
+    // derived PartialEq of BigInt<4> (a 32-byte memcmp) is limb-wise equality
+    let (a, b): ([u64; 4], [u64; 4]) = (kani::any(), kani::any());
+    let (x, y) = (ark_ff::BigInt::<4>::new(a), ark_ff::BigInt::<4>::new(b));
+    assert!((x == y) == (a[0] == b[0] && a[1] == b[1] && a[2] == b[2] && a[3] == b[3]));
+}
+#[kani::proof]
+#[kani::unwind(10)]
+fn ark_b512_contract() {
+    // limb-level contracts of BigInt<8>::get_bit / num_bits assumed by the Verus unit `divrem`
+    use ark_ff::BigInteger;
+    let a: [u64; 8] = kani::any();
+    let x = ark_ff::BigInt::<8>::new(a);
+    let n: usize = kani::any();
+    kani::assume(n < 512);
+    assert!(x.get_bit(n) == ((a[n / 64] >> (n % 64)) & 1 == 1));
+    let r = x.num_bits();
+    assert!(r <= 512);
+    if r == 0 {
+        let mut t = 0;
+        while t < 8 { assert!(a[t] == 0); t += 1; }
+    } else {
+        let k = ((r - 1) / 64) as usize;
+        let j = (r - 1) % 64;
+        let mut t = k + 1;
+        while t < 8 { assert!(a[t] == 0); t += 1; }
+        assert!((a[k] >> j) <= 1);
+    }
+}
+#[kani::proof]
+#[kani::unwind(7)]
 fn ark_mul2_div2_contract() {
     use ark_ff::BigInteger;
     let a: [u64; 4] = kani::any();
